@@ -257,6 +257,15 @@ func c08run(c *mc.Ctx, k *c08case, getBound int) {
 // c08Body enumerates graph, ref tips, wants, haves and depth completely; the remaining
 // dimensions (commit-time order, unknown have, have order, round split, done flag, missing
 // table, iteration order of the want set) are deviations from a default, bounded per tier.
+func hasMerge(g *model.Graph) bool {
+	for _, ps := range g.Parents {
+		if len(ps) > 1 {
+			return true
+		}
+	}
+	return false
+}
+
 func c08Body(nmin, nmax int, maxSub map[string]int) func(c *mc.Ctx) {
 	return func(c *mc.Ctx) {
 		needRewrite("maporder:finder")
@@ -272,6 +281,9 @@ func c08Body(nmin, nmax int, maxSub map[string]int) func(c *mc.Ctx) {
 		hv := chooseSubset(c, n, 0, ms, false)
 		k.haves = model.Bits(hv)
 		k.depth = c.Choose(3)
+		if hasMerge(k.g) && (n <= 3 || c.Thorough()) && c.ChooseDev(2) == 1 {
+			k.g = k.g.SwapMergeParents() // merge commits list their parents farthest first
+		}
 		tas := timeAssignments(n, false) // ascending, descending, equal, pairwise
 		k.times = tas[c.ChooseDev(3)]
 		switch c.ChooseDev(3) {
